@@ -48,7 +48,22 @@ func (k Keeper) RandomIndex(seed *big.Int, total, count int) []int {
 			}
 		}
 		if duplicate {
-			continue
+			if seed.Sign() != 0 {
+				continue
+			}
+			// the seed is used up: rs stays 0 from here on, so instead of spinning forever
+			// fall back to the lowest index that has not been drawn yet (total > count, so one exists)
+			for rs = 0; rs < total; rs++ {
+				used := false
+				for _, v := range idx {
+					if rs == v {
+						used = true
+					}
+				}
+				if !used {
+					break
+				}
+			}
 		}
 		idx = append(idx, rs)
 		count -= 1
